@@ -184,6 +184,18 @@ def run(ctx, prog, res):
     sh = flow.shape(of, 0)
     r9.check(sh == "alt(DateTimeMaybeAware::or_with_timezone(p1, DateTime::timezone(p2@Aware.0)) | p1)", {"fn": of.id, "returns": sh}, "C12.R9:of", "or_with_timezone_of returns %s" % sh, lib.where_of(of))
 
+    # R9 (continued): intervals() labels its results with the zone of an input - the start's, or else the end's
+    ri = prog.require_fn("opening_hours_py::types::iterator::RangeIterator::new")
+    sh = flow.shape(ri, 0, depth=7)
+    m9 = re.search(r"prefer_timezone: (.*?), iter:", sh)
+    pz = m9.group(1) if m9 else ""
+    from_start = "DateTimeMaybeAware::timezone(p2)" in pz
+    # the fallback reads the end (p3), directly or through the closures it hands p3 to
+    closures = [prog.fns[x] for x in prog.with_closures(ri.id) if x != ri.id]
+    from_end = "p3" in pz and ("DateTimeMaybeAware::timezone(p3" in pz or any("DateTimeMaybeAware::timezone(" in flow.shape(c, 0, depth=5) for c in closures))
+    r9.check(from_start and from_end, {"fn": "RangeIterator::new", "prefer_timezone": pz[:160], "zone_of_start": from_start, "else_zone_of_end": from_end}, "C12.R9:intervals",
+             "intervals() labels its results with %s: the zone of the %s input is never used, so with a zone-less expression and only that bound aware the datetimes come back naive" % (pz[:200] or "nothing", "end" if from_start else "start"), lib.where_of(ri))
+
     # R10 ------------------------------------------------------------------------------------
     r10 = res.rule("C12.R10", "__str__ is the core's Display of the expression and __repr__ wraps exactly that text")
     f = prog.require_fn(PYO + "__str__")
